@@ -6,6 +6,7 @@ import (
 	"errors"
 	"fmt"
 	"math"
+	"strings"
 
 	ad "github.com/pbenner/autodiff"
 	"github.com/pbenner/autodiff/algorithm/adam"
@@ -469,6 +470,28 @@ func optScenarios() []scenario {
 		l = append(l, scenario{name, "steps=0", "channel:positive", bl(naive, [][]float64{{0.7, 0.3}, {0.2, 0.8}}, 0)})
 		l = append(l, scenario{name, "steps<0", "channel:positive", bl(naive, [][]float64{{0.7, 0.3}, {0.2, 0.8}}, -3)})
 	}
+	// epsilon = 0 together with an explicit iteration limit is the legitimate "run k
+	// iterations" use: these calls must return (appended last so that the indices of
+	// the scenarios above stay what the findings files name)
+	l = append(l,
+		scenario{"rprop.Run", "epsilon=0/capped(50)", "quadratic", func(r *prng.Rand, o *objective) error {
+			_, err := rprop.Run(o.scalar, x0vec(o), 0.01, []float64{1.2, 0.5}, rprop.Epsilon{Value: 0}, rprop.MaxIterations{Value: 50})
+			return err
+		}},
+		scenario{"adam.Run", "epsilon=0/capped(50)", "quadratic", func(r *prng.Rand, o *objective) error {
+			_, err := adam.Run(o.scalar, x0vec(o), adam.StepSize{Value: 0.05}, adam.Epsilon{Value: 0}, adam.MaxIterations{Value: 50})
+			return err
+		}},
+		scenario{"newton.RunMin", "epsilon=0/capped(50)", "quadratic", func(r *prng.Rand, o *objective) error {
+			_, err := newton.RunMin(o.scalar, x0vec(o), newton.Epsilon{Value: 0}, newton.MaxIterations{Value: 50})
+			return err
+		}},
+		scenario{"bfgs.Run", "epsilon=0/capped(50)", "quadratic", func(r *prng.Rand, o *objective) error {
+			_, err := bfgs.Run(o.scalar, x0vec(o), bfgs.Epsilon{Value: 0}, bfgs.MaxIterations{Value: 50})
+			return err
+		}},
+		scenario{"saga.Run", "epsilon=0/capped(50)", "quadratic", sg(saga.Gamma{Value: 0.1}, saga.Epsilon{Value: 0}, saga.MaxIterations{Value: 50})},
+	)
 	return l
 }
 
@@ -505,6 +528,11 @@ func runScenario(cs *fw.Case, sc scenario) {
 		cs.Cover("outcome:panic:" + sc.Routine)
 	case err != nil:
 		cs.Cover("outcome:error:" + sc.Routine)
+		if strings.Contains(sc.Opts, "/capped") && strings.Contains(err.Error(), "epsilon") {
+			// an explicit iteration limit makes epsilon <= 0 admissible
+			cs.Violation(fmt.Sprintf("C20|rejected-admissible|%s|%s|%s|error", sc.Routine, "epsilon=0,explicit-MaxIterations", foldObj(sc.Obj)),
+				fmt.Sprintf("%s rejected epsilon = 0 although MaxIterations bounds the run: %v", sc.Routine, err), w)
+		}
 	default:
 		cs.Cover("outcome:returned:" + sc.Routine)
 	}
